@@ -461,10 +461,12 @@ class Recorder:
             except BaseException as e:
                 tb = traceback.extract_tb(e.__traceback__)
                 inner = None
+                src = ""
                 for fr in tb:
                     if "/pybads/" in fr.filename:
                         inner = f"{os.path.relpath(fr.filename, os.path.dirname(os.path.dirname(self.BB.__file__)))}:{fr.lineno}:{fr.name}"
-                self.emit("Crash", type=type(e).__name__, msg=str(e)[:300], frame=inner,
+                        src = (fr.line or "").strip()
+                self.emit("Crash", type=type(e).__name__, msg=str(e)[:300], frame=inner, src=src,
                           ncalls=self.ncalls,
                           fc=int(bads.function_logger.func_count),
                           final=self._final_state(bads))
